@@ -10,8 +10,11 @@ RULE = ("pairs of requirement strings (A, B) per system (Default, NPM, Cargo, Go
         "built to share a lower or an upper end point with every open/closed combination (nested, overlapping, touching, also as "
         "||-alternatives) and the shared points are always probed; ~20 probe versions "
         "per pair = every bound of A and B, its predecessor/successor in each component, its prerelease neighbours, random "
-        "versions. Go computes A, B, A∪B, A∩B, B∪A, B∩A (fresh operands each time), Empty flags, and membership of every probe "
-        "under MatchVersion and under prerelease-inclusive matching; the extracted model computes the same from the same "
+        "versions; a second pass adds every bound of the spans Go holds for A, B and the four results (∞ written as 2^63-2 and 2^63-1) with neighbours; "
+        "30% of the Go/Cargo operands (8% elsewhere) are set texts {[a:b),(c:d],e} read by ParseSetConstraint (1-4 ordered spans); the ||-alternatives of A and of B are also given in another order. "
+        "Go computes A, B, A∪B, A∩B, B∪A, B∩A, A∪A, A∩A (fresh operands each time), Empty flags, membership of every probe "
+        "under MatchVersion and under prerelease-inclusive matching (hook), the public route ParseSetConstraint(result.String()).MatchVersionPrerelease on the four results "
+        "(must equal the hook), and re-observes the argument after each call (must be unchanged); the extracted model computes the same from the same "
         "parse tables. A case is non-trivial when both strings parse and at least one probe is matched by A or B")
 TRUSTED = [
     "Coq 8.16.1 kernel; vm_compute for the refuted witnesses",
